@@ -212,6 +212,19 @@ func instrWriteKeys(blocks []*ssa.BasicBlock, only map[*ssa.BasicBlock]bool, see
 					if strings.HasPrefix(g.String(), "(*github.com/zyedidia/generic/hashmap.Map[") {
 						continue
 					}
+					if strings.HasPrefix(g.String(), "(*strings.Builder).Write") || g.String() == "(*strings.Builder).Reset" {
+						out["G|builder|"] = true // the ghost content of string builders
+					}
+					if strings.Contains(g.String(), "github.com/valyala/fastjson.") {
+						out["$frontier"] = true
+						if strings.Contains(g.String(), "fastjson.Arena).New") {
+							out["J|new"] = true // creates a value at a fresh address
+						} else if strings.Contains(g.String(), "fastjson.Value).Set") && only == nil && newJSONValue(x.Call.Args[0], map[ssa.Value]bool{}) {
+							out["J|new"] = true // mutates a value this very function created
+						} else {
+							out["J|"] = true // the ghost structure of JSON values under construction
+						}
+					}
 					if _, ext := externs[g.String()]; !ext {
 						if g.Pkg != nil && !strings.HasPrefix(g.Pkg.Pkg.Path(), modPath) && g.Parent() == nil {
 							continue // library function without a model: abstracted at the call (result havoc)
@@ -540,6 +553,40 @@ func freshBaseIn(v ssa.Value, seen map[ssa.Value]bool, body map[*ssa.BasicBlock]
 					continue // nil
 				}
 				if !freshBaseIn(stv.Val, seen, body) {
+					return false
+				}
+			}
+		}
+		return n > 0
+	}
+	return false
+}
+
+// newJSONValue: v is a fastjson value created by an arena constructor in the same function (directly or through a
+// local variable that is only assigned such values).
+func newJSONValue(v ssa.Value, seen map[ssa.Value]bool) bool {
+	if seen[v] {
+		return true
+	}
+	seen[v] = true
+	switch x := v.(type) {
+	case *ssa.Call:
+		if g, ok := x.Call.Value.(*ssa.Function); ok {
+			return strings.Contains(g.String(), "fastjson.Arena).New")
+		}
+	case *ssa.UnOp:
+		if x.Op != token.MUL {
+			return false
+		}
+		cell, ok := x.X.(*ssa.Alloc)
+		if !ok || !cellLike(cell) {
+			return false
+		}
+		n := 0
+		for _, ref := range *cell.Referrers() {
+			if stv, ok := ref.(*ssa.Store); ok && stv.Addr == cell {
+				n++
+				if !newJSONValue(stv.Val, seen) {
 					return false
 				}
 			}
